@@ -17,7 +17,8 @@ RULE = ("Hypothesis-generated cond-out trees: package directories over the ident
         "Oracle = independently computed deletion set; everything else compared by tree snapshot (names, types, bytes) and "
         "row set. Non-trivial = expected deletion set non-empty AND >=1 look-alike that must survive (nested in a task "
         "dir, a file, a recorded sibling with the same name, or the same name/ts recorded under another package). "
-        "Distinct = SHA-1 of case JSON.")
+        "Distinct = SHA-1 of case JSON."
+        " Also generated: symbolic links planted in cond-out (to a directory outside, an alias of a package, a link named like a version) and directories whose names end in a newline - none of them may be deleted, listed or traversed.")
 ASSUMPTIONS = ["only directories whose names are valid package names, task directories of either form, files, and symbolic "
                "links placed by hand are generated (stray directories with other names are not: the property does not say "
                "what they are); a symbolic link is never an experiment output directory, and nothing may be deleted or listed "
